@@ -156,12 +156,30 @@ func (p *Program) Clone() *Program {
 
 // MsgByName finds a message.
 func (s *Spec) MsgByName(n string) *Msg {
+	n = BareMsg(n)
 	for i := range s.Messages {
 		if s.Messages[i].Name == n {
 			return &s.Messages[i]
 		}
 	}
+	// messages of the dependency files (referred to as msg:.<package>.<Name>)
+	for di := range s.Deps {
+		for i := range s.Deps[di].Messages {
+			if s.Deps[di].Messages[i].Name == n {
+				return &s.Deps[di].Messages[i]
+			}
+		}
+	}
 	return nil
+}
+
+// BareMsg strips the proto package from a fully qualified message reference (".pkg.Name" -> "Name").
+// Message names are unique across the files of a program.
+func BareMsg(n string) string {
+	if strings.HasPrefix(n, ".") {
+		return n[strings.LastIndex(n, ".")+1:]
+	}
+	return n
 }
 
 // ---------------------------------------------------------------------------------------
@@ -180,7 +198,7 @@ func TypeSx(t string) *Sx {
 	case strings.HasPrefix(t, "enum:"):
 		return L(A("enum"), Q(t[5:]))
 	case strings.HasPrefix(t, "msg:"):
-		return L(A("msg"), Q(t[4:]))
+		return L(A("msg"), Q(BareMsg(t[4:])))
 	case strings.HasPrefix(t, "map:"):
 		kt, vt := "string", t[4:]
 		if i := strings.Index(vt, ","); i >= 0 {
